@@ -516,3 +516,40 @@ func expandVariadic(info *types.Info, body ast.Node, call *ast.CallExpr) []ast.E
 	}
 	return out
 }
+
+// valueSources follows e through locals (every assignment of each, at most depth steps) and returns the leaf
+// expressions its value can come from; a comma-ok assignment contributes its right-hand side.
+func valueSources(info *types.Info, body ast.Node, e ast.Expr, depth int) []ast.Expr {
+	var out []ast.Expr
+	seen := map[types.Object]bool{}
+	var rec func(e ast.Expr, d int)
+	rec = func(e ast.Expr, d int) {
+		id, ok := ast.Unparen(e).(*ast.Ident)
+		if !ok || d == 0 {
+			out = append(out, e)
+			return
+		}
+		v, isV := info.ObjectOf(id).(*types.Var)
+		if !isV || v.IsField() || seen[v] {
+			if !seen[v] {
+				out = append(out, e)
+			}
+			return
+		}
+		seen[v] = true
+		es := eng.AssignedExprs(info, body, v)
+		if len(es) == 0 && !isDeclaredIn(info, body, v) {
+			out = append(out, e) // a parameter or captured variable
+			return
+		}
+		for _, x := range es {
+			rec(x, d-1)
+		}
+	}
+	rec(e, depth)
+	return out
+}
+
+func isDeclaredIn(info *types.Info, body ast.Node, v *types.Var) bool {
+	return body.Pos() <= v.Pos() && v.Pos() < body.End()
+}
